@@ -18,6 +18,37 @@
 //!   BTreeSet/BTreeMap: get/insert, iteration in ascending key order
 //! They are part of the trusted base of every harness that touches them.
 
+/*  `<[T]>::sort` redirection (lib/gen.py rewrites `.sort()` to `.vsort()`).  Natively it IS
+    std's sort; under Kani an exact sorting network for slices of at most 3 elements (longer
+    slices are a harness-domain error, asserted, never assumed). */
+pub trait VSort
+{
+    fn vsort(&mut self);
+}
+
+impl<T : Ord> VSort for [T]
+{
+    #[cfg(not(kani))]
+    fn vsort(&mut self)
+    {
+        self.sort();
+    }
+
+    #[cfg(kani)]
+    fn vsort(&mut self)
+    {
+        crate::stubs::sort_small(self);
+    }
+}
+
+impl<T : Ord> VSort for Vec<T>
+{
+    fn vsort(&mut self)
+    {
+        self.as_mut_slice().vsort();
+    }
+}
+
 #[cfg(not(kani))]
 pub mod collections
 {
